@@ -90,8 +90,8 @@ fn fr_json(f: &[Fr<'_>]) -> Value {
 /// the texts / signatures issued in every state (the deeper text, trace and descriptor spaces are C07/C08/C16's)
 pub fn state_texts(uni: &Universe) -> (Vec<String>, Vec<String>) {
     let mut texts = Vec::new();
-    let cls: Vec<&String> = uni.classes.iter().take(4).collect();
-    let ms: Vec<&String> = uni.methods.iter().take(4).collect();
+    let cls: Vec<&String> = uni.classes.iter().filter(|c| c.len() < 1000).take(4).collect();
+    let ms: Vec<&String> = uni.methods.iter().filter(|c| c.len() < 1000).take(4).collect();
     let mut t = String::new();
     for (i, c) in cls.iter().enumerate() {
         if i == 0 {
@@ -105,6 +105,7 @@ pub fn state_texts(uni: &Universe) -> (Vec<String>, Vec<String>) {
             }
         }
         t.push_str("    at zz.Unknown.x(U.java:3)\n    ... 2 more\n");
+        t.push_str(&format!("\tSuppressed: {}: s\n\t\tat {}.x(F.java:1)\nSuppressed: {}\n[CIRCULAR REFERENCE: {}: c]\nWrapped by: {}: w\n", c, c, c, c, c));
     }
     texts.push(t);
     // a trace that starts with a frame, CRLF, no final newline
@@ -181,8 +182,18 @@ pub fn diff_subjects(
             }
         }
     }
+    for class in &uni.classes_affixed {
+        let (x, z) = (mapper.remap_class(class), cache.remap_class(class));
+        let m0 = uni.methods.first().map(|s| s.as_str()).unwrap_or("m");
+        let (xm, zm) = (mapper.remap_method(class, m0), cache.remap_method(class, m0));
+        acc.observations += 2;
+        if x != z || xm != zm {
+            acc.violation("diff:class-affixed", size, || (format!("lookup of {:?}: mapper {:?}/{:?} cache {:?}/{:?}", class, x, xm, z, zm), case(json!({"kind":"class","class":class}), json!(x), json!(z))));
+        }
+    }
     let files: [Option<&'static str>; 2] = [None, Some("F.java")];
-    let mut byline = |class: &String, method: &String, line: usize, file: Option<&'static str>, acc: &mut Acc| {
+    let mut byline = |class: &String, method: &String, line: usize, file: Option<&str>, acc: &mut Acc| {
+        let file: Option<&str> = file.map(|f| unsafe { std::mem::transmute::<&str, &str>(f) });
         let class: &str = unsafe { std::mem::transmute::<&str, &str>(class.as_str()) };
         let method: &str = unsafe { std::mem::transmute::<&str, &str>(method.as_str()) };
         mapper.remap_frame(class, method, line, file, None, &mut a);
@@ -223,6 +234,15 @@ pub fn diff_subjects(
         for method in &uni.methods {
             for &line in &uni.lines_short {
                 byline(class, method, line, None, acc);
+            }
+        }
+    }
+    for file in &uni.files_derived {
+        for class in &uni.classes {
+            for method in &uni.methods {
+                for &line in &uni.lines_short {
+                    byline(class, method, line, Some(file.as_str()), acc);
+                }
             }
         }
     }
@@ -418,7 +438,9 @@ pub fn run(tier: Tier) -> i32 {
         Box::new(crate::families::unicode_family()),
         Box::new(crate::families::relation_family()),
         Box::new(crate::families::collision_family()),
+        Box::new(crate::families::giant_family()),
         Box::new(ms_e(if t { 1 } else { 0 })),
+        Box::new(ms_e_runs(if t { 1 } else { 0 })),
     ];
     let corpus = corpus_files();
     let mut items: Vec<Item> = Vec::new();
